@@ -278,8 +278,41 @@ def run(repo, chk):
     chk.floor("R-C08-4", 2 * 7 + 4)
     chk.floor("R-C08-5", 6)
 
+    # ---------------------------------------------------------------- R-C08-6 reported leak demand
+    # the leak row exists only for `leak_status and not _is_isolated` (R-C08-1); wherever it does not exist the reported leak demand must be
+    # the constant 0 -- on EVERY path through store_results_in_network (last store wins), not the stale value of the leak-rate variable
+    from ._shared import final_stores
+    sfn, rows = final_stores(repo)
+    chk.fn(sfn)
+    n6 = 0
+    seen6 = set()
+    for ctx, conds, finals in rows:
+        if ctx not in ("wn.junctions()", "wn.tanks()"):
+            continue
+        kind = "junction" if ctx == "wn.junctions()" else "tank"
+        iso = conds.get("node._is_isolated") if kind == "junction" else None
+        ls = conds.get("node.leak_status")
+        got = finals.get("node._leak_demand", "<not stored>")
+        if iso is True:
+            case, want = "isolated", 0
+        elif ls is True:
+            case, want = "connected, leak active", "m.leak_rate[name].value"
+        elif ls is False:
+            case, want = "connected, leak inactive", 0
+        else:
+            continue
+        key = (kind, case, str(got))
+        if key in seen6:
+            continue
+        seen6.add(key)
+        n6 += 1
+        chk.expect(got == want, "R-C08-6", "reported leak demand of a %s [%s] is %s on every path" % (kind, case, want), loc(sfn),
+                   "store_results_in_network, path %s: the last value stored to node._leak_demand" % sorted(conds.items()), expected=want, found=got)
+    chk.floor("R-C08-6", 5)
+
 
 WITNESSES = [
+    dict(name="isolated-junction-keeps-stale-leak", file="wntr/sim/hydraulics.py", old="            node._pressure = 0\n            node._leak_demand = 0\n", new="            node._pressure = 0\n", rule="R-C08-6"),
     dict(name="drop-2g", file=CON, old="con.add_final_expr(leak_rate - Cd*area*(2.0*9.81*(h-elev))**0.5)", new="con.add_final_expr(leak_rate - Cd*area*(9.81*(h-elev))**0.5)", rule="R-C08-1"),
     dict(name="exponent-one", file=CON, old="(2.0*9.81*(h-elev))**0.5)", new="(2.0*9.81*(h-elev))**1.0)", rule="R-C08-1"),
     dict(name="guard-wrong", file=CON, old="con.add_condition(aml.inequality(h - elev, ub=delta), leak_rate - (a*(h-elev)**3", new="con.add_condition(aml.inequality(h, ub=delta), leak_rate - (a*(h-elev)**3", rule="R-C08-1"),
